@@ -32,15 +32,20 @@ Record bfixes := mkBF {
   bf_own_init : bool;    (* C05-own-initialiser: IsCorrectPosition hides a local from every use inside the initialiser
                             list of its own statement (VarInfo.InitLoc); before: only when the initialiser was a plain
                             name / call / function expression containing the use (class B1) *)
-  bf_surplus : bool      (* C20-local-surplus: cgLocalVarDeclStat analyses EVERY initialiser of `local a = 1, 2, 3, 4`
+  bf_surplus : bool;     (* C20-local-surplus: cgLocalVarDeclStat analyses EVERY initialiser of `local a = 1, 2, 3, 4`
                             (`continue`); before: the loop ended (`break`) after the first initialiser beyond the
                             names, the later ones were never visited by any pass (class unvisited_local_surplus) *)
+  bf_later_else : bool   (* C07-later-elsewhere: findGlobalVar (third pass, top level) asks the OTHER files of the workspace
+                            before it reports a global that this file defines only further down as a load-order error;
+                            before: type 3 although another file defines the global as well (class later_elsewhere) *)
 }.
-Definition no_fixes : bfixes := mkBF false false false false false false.
-Definition all_fixes : bfixes := mkBF true true true true true true.
-Definition deployed : bfixes := mkBF true true true true true true.
-(* the code of /repo before fixes/C20-local-surplus.diff (every other repair in) *)
-Definition before_surplus : bfixes := mkBF true true true true true false.
+Definition no_fixes : bfixes := mkBF false false false false false false false.
+Definition all_fixes : bfixes := mkBF true true true true true true true.
+Definition deployed : bfixes := mkBF true true true true true true true.
+(* the code of /repo before fixes/C20-local-surplus.diff (every other repair of that time in) *)
+Definition before_surplus : bfixes := mkBF true true true true true false false.
+(* the code of /repo before fixes/C07-later-elsewhere.diff (every other repair in) *)
+Definition before_later_else : bfixes := mkBF true true true true true true false.
 
 (* ------------------------------------------------------------------ Location predicates (lexer/common.go) *)
 Definition loc_eqb (a b : loc) : bool :=                      (* CompareTwoLoc *)
